@@ -233,6 +233,20 @@ class ExcV(V):
         return ("exc", self.cls.__module__ + "." + self.cls.__qualname__, self.site)
 
 
+class PartialV(V):
+    """functools.partial(fn, *args, **kwargs)."""
+
+    ty = "callable"
+
+    def __init__(self, fn: V, args=(), kwargs=None):
+        self.fn = fn
+        self.args = tuple(args)
+        self.kwargs = dict(kwargs or {})
+
+    def key(self):
+        return ("partial", self.fn.key(), tuple(a.key() for a in self.args), tuple(sorted((k, v.key()) for k, v in self.kwargs.items())))
+
+
 class FutureV(V):
     """Awaitable that, when awaited, runs `fn(*args)` (run_in_executor, coroutine objects)."""
 
